@@ -160,3 +160,25 @@ pub fn amz_date(a: &[String]) -> Value {
     json!({"violates": !ok, "input": {"x-amz-date": date, "request": "GET /bkt/key with a SigV4 Authorization header, SimpleAuth configured"},
            "expected": "an S3 error response (4xx), no panic, no backend invocation", "observed": observed, "replay_args": ["amz-date", a[0]]})
 }
+
+/// raw <mode> <METHOD> <uri> <body text> [name=value headers…]: any request through S3Service::call with the recording backend
+pub fn raw(a: &[String]) -> Value {
+    let headers: Vec<(String, String)> = a[4..].iter().filter_map(|h| h.split_once('=')).map(|(n, v)| (n.to_owned(), v.to_owned())).collect();
+    let o = call(&a[1], &a[2], &headers, a[3].clone().into_bytes(), &a[0]);
+    json!({"status": o.status, "backend_calls": o.calls, "body": o.body.chars().take(300).collect::<String>(), "transport_error": o.transport_error})
+}
+
+/// bind <case>: C02 probes through S3Service::call — "content-length-buffered", "content-length-empty", "duplicate-query", "duplicate-header"
+pub fn bind(a: &[String]) -> Value {
+    let cfg = "<CreateBucketConfiguration xmlns=\"http://s3.amazonaws.com/doc/2006-03-01/\"></CreateBucketConfiguration>";
+    let (method, uri, body, headers, what): (&str, &str, &str, Vec<(String, String)>, &str) = match a[0].as_str() {
+        "content-length-buffered" => ("PUT", "/bkt", cfg, vec![("content-length".into(), "500".into())], "a buffered 97-byte body with Content-Length: 500"),
+        "content-length-empty" => ("PUT", "/bkt", "", vec![("content-length".into(), "100".into())], "an empty body with Content-Length: 100"),
+        "duplicate-query" => ("GET", "/bkt/key?versionId=1&versionId=2", "", vec![], "versionId sent twice"),
+        _ => ("GET", "/bkt/key", "", vec![("range".into(), "bytes=0-1".into()), ("range".into(), "bytes=2-3".into())], "Range sent twice"),
+    };
+    let o = call(method, uri, &headers, body.as_bytes().to_vec(), "ok_default");
+    let ok = o.calls.is_empty() && (400..500).contains(&o.status);
+    json!({"violates": !ok, "input": {"request": format!("{method} {uri}"), "what": what}, "expected": "a client error (4xx) and no backend invocation",
+           "observed": {"status": o.status, "backend_calls": o.calls, "body": o.body.chars().take(200).collect::<String>()}, "replay_args": ["bind", a[0]]})
+}
